@@ -338,7 +338,7 @@ func nanValue() float64 { var z float64; return z / z }
 // oracleCancel (C14): cancellation at the k-th callback / at a random instant /
 // with a storage that blocks until cancelled.
 func oracleCancel(seed int64, id int) CaseResult {
-	fc, r := genFaultCase(seed, id, []string{"cancel", "block", "timer", "race"}, allSites[:11])
+	fc, r := genFaultCase(seed, id, []string{"cancel", "block", "timer", "race", "blockcancel"}, allSites[:11])
 	if id%3 == 0 {
 		fc.Dist = true
 	}
@@ -367,7 +367,7 @@ func oracleCancel(seed int64, id int) CaseResult {
 	switch fc.Kind {
 	case "cancel":
 		st.Faults = []Fault{{Kind: "cancel", Site: fc.Site, N: fc.N}}
-	case "block":
+	case "block", "blockcancel":
 		st.Faults = []Fault{{Kind: "block", Site: fc.Site, N: fc.N}}
 	}
 	eng, _ := newEngines(fc.Dist, data, st)
@@ -389,6 +389,11 @@ func oracleCancel(seed int64, id int) CaseResult {
 	case "race":
 		time.Sleep(time.Duration(r.Intn(1500)) * time.Microsecond)
 		q.Cancel() // Cancel() racing with Exec
+	case "blockcancel":
+		// the storage blocks (possibly while the series are still being loaded) until the
+		// query's own Cancel() - not the caller's context - stops it
+		time.Sleep(time.Duration(1+r.Intn(20)) * time.Millisecond)
+		q.Cancel()
 	}
 	var out Canon
 	select {
@@ -402,7 +407,7 @@ func oracleCancel(seed int64, id int) CaseResult {
 	}
 	q.Close()
 	res.Impl = trunc(out.String(), 200)
-	cancelled := ctx.Err() != nil || fc.Kind == "race"
+	cancelled := ctx.Err() != nil || fc.Kind == "race" || fc.Kind == "blockcancel"
 	if out.Kind == "error" {
 		if out.Err != "ctx-canceled" && !(fc.Dist && strings.Contains(out.ErrMsg, "context canceled")) {
 			res.Fail = "cancelled query returned an error that is not the context's: [" + out.Err + "] " + out.ErrMsg
